@@ -1259,3 +1259,210 @@ def spelling_independence_obligations(rep, tier, unit='syntactic:generator-ignor
 def re_search_name(t):
     import re
     return re.search(r'\b(name|names)\b', t) is not None and re.search(r'(==|!=|\bin\b|startswith|endswith|lower|upper|isdigit|\[)', t) is not None
+
+
+# ---------------------------------------------------------------------------------------------- C19 spellings
+def spelling_obligations(rep, tier, unit='wiring:spellings'):
+    from sourcer import parser as P
+    F2 = [(a, b) for a in frag.FLAGS for b in frag.FLAGS]
+    F1 = [(a,) for a in frag.FLAGS]
+    F1na = [(a,) for a in frag.FLAGS if a != (True, False)]
+    pairs = [
+        ('X1?', 'Opt(X1)', F1), ('X1*', 'List(X1)', F1na), ('X1+', 'Some(X1)', F1na), ('X1 >> X2', 'Right(X1, X2)', F2), ('X1 << X2', 'Left(X1, X2)', F2),
+        ('X1 | X2', 'Choice(X1, X2)', F2), ('[X1, X2]', 'Seq(X1, X2)', F2), ('X1 // X2', 'Sep(X1, X2)', [f for f in F2 if f[0] != (True, False)]),
+        ('X1 /? X2', 'Sep(X1, X2, allow_trailer=True)', [f for f in F2 if f[0] != (True, False)]),
+        ('X1{2,5}', 'List(X1, min_len=2, max_len=5)', F1na), ('X1{2,10}', 'List(X1, min_len=2, max_len=10)', F1na), ('X1{9,12}', 'List(X1, min_len=9, max_len=12)', F1na),
+        ('X1{3}', 'List(X1, min_len=3, max_len=3)', F1na), ('X1{2,}', 'List(X1, min_len=2)', F1na), ('X1{,4}', 'List(X1, max_len=4)', F1),
+        ('X1{0,1}', 'List(X1, min_len=0, max_len=1)', F1), ('X1{1,}', 'List(X1, min_len=1)', F1na), ('X1{n}', 'List(X1, min_len=`"n"`, max_len=`"n"`)', F1na),
+    ]
+    for a, b, flags in pairs:
+        try:
+            ok, d = True, None
+            for fl in flags:
+                for ctx in (False, True):
+                    sa = [Stub(i + 1, *f) for i, f in enumerate(fl)]
+                    sb = [Stub(i + 1, *f) for i, f in enumerate(fl)]
+                    na = front.substitute_stubs(front.expr_of(a), dict(zip(('X1', 'X2'), sa)))
+                    nb = front.substitute_stubs(front.expr_of(b), dict(zip(('X1', 'X2'), sb)))
+                    ta, tb = frag.emit(na, ctx), frag.emit(nb, ctx)
+                    if ast.dump(ast.parse(ta)) != ast.dump(ast.parse(tb)):          # identical up to comments
+                        ok, d = False, {'flags': fl, 'ctx': ctx, 'a': ta, 'b': tb}
+                        break
+                if not ok:
+                    break
+        except Exception as e:
+            ok, d = False, {'raised': repr(e)[:300]}
+        rep.add(unit, f'`{a}` and `{b}` emit textually identical code for every child-flag combination and both conventions', 'case_complete', ok, detail=d)
+    # renderings: identical syntax trees
+    def tree(desc):
+        try:
+            return repr(P.parse(desc))
+        except Exception as e:
+            return f'{type(e).__name__}: {str(e)[:80]}'
+    base = ('R1 {s1} "a" | B\nclass K {{\n f1 {s2} "x"\n let f2 {s3} B\n}}\nL {s1} let v {s4} "q" in v\nC {s1} T(k1 {s5} "z")\nT(k1) {s1} k1\nB {s1} "b"')
+    ref = tree(base.format(s1='=', s2=':', s3=':', s4='=', s5='='))
+    for pos, key in (('rule definition', 's1'), ('class field', 's2'), ('let class field', 's3'), ('let expression', 's4'), ('keyword argument', 's5')):
+        for sep in ('=>', '=', ':'):
+            kw = dict(s1='=', s2=':', s3=':', s4='=', s5='=')
+            kw[key] = sep
+            rep.add(unit, f'`{sep}` in a {pos} gives the same syntax tree as the other separators', 'ground', tree(base.format(**kw)) == ref,
+                    detail={'got': tree(base.format(**kw))[:160]})
+    variants = {
+        'newline vs ; between statements': ('A = "a"\nB = "b"\nC = [A, B]', 'A = "a"; B = "b"; C = [A, B]'),
+        'comments and blank lines': ('A = "a"\nB = "b"', '# head\n\nA = "a"  # tail\n\n\n# mid\nB = "b"\n\n'),
+        'line breaks around binary operators': ('A = "a" | "b" >> "c" // "," |> `f` where `g`', 'A = "a"\n  | "b"\n  >> "c"\n  // ","\n  |> `f`\n  where `g`'),
+        'line break after an operator': ('A = "a" | "b" << "c"', 'A = "a" |\n  "b" <<\n  "c"'),
+        'redundant parentheses': ('A = "a" | ["b", "c"?]', 'A = (("a")) | ([("b"), (("c")?)])'),
+        'ignore vs ignored (named)': ('ignore S = " "\nA = "a"', 'ignored S = " "\nA = "a"'),
+        'ignore vs ignored (anonymous)': ('ignore " "\nA = "a"', 'ignored " "\nA = "a"'),
+        'override vs overrides': ('grammar b extends a\noverride A = "a"', 'grammar b extends a\noverrides A = "a"'),
+        'statement separators inside a class': ('class K {\n a: "a"\n b: "b"\n}', 'class K { a: "a"; b: "b" }'),
+        'layout inside lists and argument lists': ('A = ["a", T("b", k="c")]', 'A = [\n  "a"\n  ,\n  T(\n    "b"\n    , k="c"\n  )\n]'),
+    }
+    for name, (a, b) in variants.items():
+        rep.add(unit, f'{name}: same syntax tree', 'ground', tree(a) == tree(b) and not tree(a).startswith(('ParseError', 'PartialParseError')),
+                detail={'a': tree(a)[:160], 'b': tree(b)[:160]})
+    # a bare expression is `start = expr`
+    from sourcer import grammar as G
+    pa, pb = G._parse_grammar('"a" | "b"+'), G._parse_grammar('start = "a" | "b"+')
+    rep.add(unit, 'a bare expression is the rule start = <expression>', 'ground', repr(pa.body) == repr(pb.body), detail={'a': repr(pa.body)[:200], 'b': repr(pb.body)[:200]})
+    # grouping: postfix tightest, then // /?, then << >>, then <| |> where, then |; binary operators associate to the left
+    def shape(e):
+        if isinstance(e, X.Str):
+            return e.value
+        if isinstance(e, X.Opt):
+            return ('?', shape(e.expr))
+        if isinstance(e, X.List):
+            return ('*' if e.min_len is None else '+', shape(e.expr))
+        if isinstance(e, X.Sep):
+            return ('/?' if e.allow_trailer else '//', shape(e.expr), shape(e.separator))
+        if isinstance(e, X.Discard):
+            return ('>>' if e.discard_left else '<<', shape(e.expr1), shape(e.expr2))
+        if isinstance(e, X.Apply):
+            return ('<|' if e.apply_left else '|>', shape(e.expr1), shape(e.expr2))
+        if isinstance(e, X.Where):
+            return ('where', shape(e.expr), shape(e.predicate))
+        if isinstance(e, X.Choice):
+            return ('|',) + tuple(shape(x) for x in e.exprs)
+        if isinstance(e, X.PythonExpression):
+            return '`' + e.source_code + '`'
+        return type(e).__name__
+    groupings = [
+        ('"a" // "b"?', ('//', 'a', ('?', 'b'))), ('"a" << "b" // "c"', ('<<', 'a', ('//', 'b', 'c'))), ('"a" /? "b" >> "c"', ('>>', ('/?', 'a', 'b'), 'c')),
+        ('"a" |> `f` << "c"', ('|>', 'a', ('<<', '`f`', 'c'))), ('"a" >> "b" where `p`', ('where', ('>>', 'a', 'b'), '`p`')),
+        ('"a" | "b" |> `f`', ('|', 'a', ('|>', 'b', '`f`'))), ('"a" where `p` | "c"', ('|', ('where', 'a', '`p`'), 'c')),
+        ('"a" << "b" >> "c"', ('>>', ('<<', 'a', 'b'), 'c')), ('"a" >> "b" << "c"', ('<<', ('>>', 'a', 'b'), 'c')), ('"a" // "b" /? "c"', ('/?', ('//', 'a', 'b'), 'c')),
+        ('"a" |> `f` <| "c"', ('<|', ('|>', 'a', '`f`'), 'c')), ('"a" <| "b" where `p` |> `g`', ('|>', ('where', ('<|', 'a', 'b'), '`p`'), '`g`')),
+        ('"a"* // "b"+ >> "c"?', ('>>', ('//', ('*', 'a'), ('+', 'b')), ('?', 'c'))),
+    ]
+    for text, want in groupings:
+        try:
+            got = shape(front.expr_of(text))
+        except Exception as e:
+            got = repr(e)[:100]
+        rep.add(unit, f'`{text}` groups as {want}', 'ground', got == want, detail={'got': got})
+    # the table in grammar.txt itself
+    import os
+    from pyvc import paths
+    gt = P.parse(open(os.path.join(paths.REPO, 'grammar.txt')).read())
+    rows = None
+    for st in gt.body:
+        if isinstance(st, P.RuleDef) and st.name == 'Expr' and isinstance(st.expr, P.Postfix) and isinstance(st.expr.operator, P.OperatorTable):
+            rows = [(r.associativity, ' '.join(sorted(set(__import__('re').findall(r"value='\"([^\"]+)\"'", repr(r.operators)))))) for r in st.expr.operator.rows]
+    want_rows = [('mixfix', '('), ('postfix', ''), ('postfix', '* + ?'), ('left', '// /?'), ('left', '<< >>'), ('left', '<| where |>'), ('left', '|'), ('postfix', '')]
+    rep.add(unit, 'grammar.txt: the Expr table lists, in this order, postfix forms, // /?, << >>, <| |> where, |, all binary rows left-associative', 'ground',
+            rows is not None and [r[0] for r in rows] == [w[0] for w in want_rows] and all(set(r[1].split()) >= set(w[1].split()) - {'('} for r, w in zip(rows, want_rows)),
+            detail={'rows': rows})
+
+
+# ---------------------------------------------------------------------------------------------- C18 isolation (frame / ownership)
+def _fresh_locals(fn):
+    """locals of fn that are bound (everywhere in fn) only to freshly allocated containers / objects: displays, comprehensions, constructor calls"""
+    fresh, other = set(), set()
+    for n in ast.walk(fn):
+        if isinstance(n, ast.Assign):
+            for t in n.targets:
+                for nm in [t] if isinstance(t, ast.Name) else []:
+                    v = n.value
+                    is_fresh = isinstance(v, (ast.List, ast.Dict, ast.Set, ast.ListComp, ast.DictComp, ast.SetComp, ast.Tuple)) or \
+                        (isinstance(v, ast.Call) and ast.unparse(v.func) in ('set', 'dict', 'list', '_Metadata', '_StringLiteral', '_ByteLiteral')) or \
+                        (isinstance(v, ast.Call) and (ast.unparse(v.func)[:1].isupper() or ast.unparse(v.func) in ('self.__class__',))) or \
+                        (isinstance(v, ast.Subscript) and isinstance(v.value, ast.Name) and v.value.id in fresh)
+                    (fresh if is_fresh else other).add(nm.id)
+    return fresh - other
+
+
+def isolation_obligations(rep, tier, unit='wiring:isolation'):
+    """write frames: a parse activation writes only objects it allocated itself; module-level state is written only at import"""
+    from pyvc import runtime
+    import re
+    # run-time library
+    src, tree, defs = runtime.runtime(False)
+    mod_level = {t.id for n in tree.body if isinstance(n, ast.Assign) for t in ast.walk(n) if isinstance(t, ast.Name) and isinstance(t.ctx, ast.Store)}
+    for ctxv in (False, True):
+        src, tree, defs = runtime.runtime(ctxv)
+        for name, fn in sorted(defs.items()):
+            if not isinstance(fn, ast.FunctionDef):
+                continue
+            params = set(astutil.params_of(fn))
+            fresh = _fresh_locals(fn)
+            bad = []
+            for n in ast.walk(fn):
+                if isinstance(n, (ast.Global, ast.Nonlocal)):
+                    bad.append(ast.unparse(n))
+                if isinstance(n, (ast.Attribute, ast.Subscript)) and isinstance(n.ctx, (ast.Store, ast.Del)):
+                    base = n.value
+                    while isinstance(base, (ast.Attribute, ast.Subscript)):
+                        base = base.value
+                    b = base.id if isinstance(base, ast.Name) else ast.unparse(base)
+                    ok = b in fresh or (b == 'self' and name.split('.')[-1] in ('__init__', '__setattr__', '__hash__')) or \
+                        (b == 'result' and b in {t.id for x in ast.walk(fn) if isinstance(x, ast.Assign) for t in x.targets if isinstance(t, ast.Name)}) or \
+                        (name == '_finalize_parse_info' and ast.unparse(n) == 'node._metadata.position_info') or \
+                        (name.startswith('_Metadata.') and b == 'self') or (name == 'ParsedObject._replace' and b == 'kw')
+                    if not ok:
+                        bad.append(ast.unparse(n))
+                if isinstance(n, ast.Call) and isinstance(n.func, ast.Attribute) and n.func.attr in ('append', 'add', 'update', 'setdefault', 'extend', 'pop', 'clear', 'insert', 'remove', 'discard') \
+                        and isinstance(n.func.value, ast.Name) and n.func.value.id not in fresh and n.func.value.id not in ('stack',):
+                    if n.func.value.id in mod_level or (n.func.value.id not in params and n.func.value.id not in {t.id for x in ast.walk(fn) for t in ([x] if isinstance(x, ast.Name) and isinstance(x.ctx, ast.Store) else [])}):
+                        bad.append(ast.unparse(n)[:60])
+            rep.add(unit, f'run-time {name}: stores only into objects allocated in the same activation (or the documented target) [ctx={int(ctxv)}]', 'syntactic',
+                    not bad, detail={'stores': bad})
+    # the two known non-fresh writes are contract obligations elsewhere: position_info of instances of THIS call's result (FinalizeC frame, C10),
+    # metadata of a callback's return value (C16 known finding)
+    for gname, desc in list(C11_GRAMMARS.items()) + [('all-forms', C20_GRAMMAR)]:
+        for named in (False, True):
+            text = (f'grammar c18iso_{re.sub("[^a-z]", "_", gname)}\n' if named else '') + desc
+            src = runtime.generated_module_source(text)
+            tree = ast.parse(src)
+            tag = f'[{gname},named={int(named)}]'
+            rt_names = set(runtime.runtime(named)[2]) | {'_ctx', '_super_ctx', '_Context', '_nt', '_compile_re', '_IGNORECASE', '_Position', '_PositionInfo', '_Traversing'}
+            mod_assigned = {t.id for n in tree.body if isinstance(n, ast.Assign) for t in ast.walk(n) if isinstance(t, ast.Name) and isinstance(t.ctx, ast.Store)}
+            classes = {n.name for n in tree.body if isinstance(n, ast.ClassDef)}
+            fnames = {n.name for n in tree.body if isinstance(n, ast.FunctionDef)}
+            bad_store, bad_read = [], []
+            for fn in [n for n in tree.body if isinstance(n, ast.FunctionDef) and n.name.startswith(('_try_', '_parse_function_', '_raise_error'))]:
+                local = set(astutil.params_of(fn)) | {t.id for t in ast.walk(fn) if isinstance(t, ast.Name) and isinstance(t.ctx, ast.Store)}
+                for lam in [x for x in ast.walk(fn) if isinstance(x, ast.Lambda)]:
+                    local |= set(astutil.params_of(lam))           # parameters of inline lambdas (user code, operator taggers)
+                fresh = _fresh_locals(fn)
+                for n in ast.walk(fn):
+                    if isinstance(n, (ast.Global, ast.Nonlocal)):
+                        bad_store.append((fn.name, ast.unparse(n)))
+                    if isinstance(n, (ast.Attribute, ast.Subscript)) and isinstance(n.ctx, (ast.Store, ast.Del)) and ast.unparse(n) != '_result._metadata.position_info':
+                        bad_store.append((fn.name, ast.unparse(n)))
+                    if isinstance(n, ast.Call) and isinstance(n.func, ast.Attribute) and n.func.attr in ('append', 'pop', 'extend', 'add', 'update', 'clear', 'insert', 'remove') \
+                            and isinstance(n.func.value, ast.Name) and n.func.value.id not in fresh:
+                        bad_store.append((fn.name, ast.unparse(n)[:50]))
+                    if isinstance(n, ast.Name) and isinstance(n.ctx, ast.Load) and n.id not in local and n.id not in astutil.BUILTINS:
+                        ok = n.id.startswith(('_try_', '_raise_error', '_parse_function_', 'matcher')) or n.id in rt_names or n.id in classes or n.id in fnames \
+                            or (gname == 'python' and n.id == 'math') or n.id.startswith('U_') or n.id in ('int',)
+                        if not ok:
+                            bad_read.append((fn.name, n.id))
+            rep.add(unit, f'emitted rule / helper / error functions assign only locals, mutate only lists of their own activation, store only the span of the instance just built {tag}',
+                    'syntactic', not bad_store, detail={'stores': bad_store[:6]})
+            rep.add(unit, f'emitted rule code reads no module-level DATA besides compiled matchers, implementations, error functions, the context and the run-time library {tag}',
+                    'syntactic', not bad_read, detail={'reads': sorted(set(bad_read))[:6]})
+            # matchers are bound methods of compiled patterns (immutable, thread-safe by the re contract)
+            others = sorted(m for m in mod_assigned if not m.startswith(('matcher', '_ctx', '_Position', '_PositionInfo', '_Traversing')) and m not in classes
+                            and not any(isinstance(n, ast.Assign) and isinstance(n.value, ast.Call) and ast.unparse(n.value.func) == 'ParsingRule' and ast.unparse(n.targets[0]) == m for n in tree.body))
+            rep.add(unit, f'module-level data are only: compiled matchers, rule objects, the context, named tuples {tag}', 'syntactic', not others, detail={'others': others})
